@@ -166,7 +166,7 @@ package gonum
 //@ panics iff !valid, before-writes
 //@ writes c[i*ldc+j] for i in 0..m, j in 0..n
 
-//@ func dgemmParallel sgemmParallel dgemmSerial sgemmSerial props: C01(frame) C07(safety) C09
+//@ func dgemmSerial sgemmSerial props: C01(frame) C07(safety)
 //@ let rowA = ite(aTrans, k, m)
 //@ let colA = ite(aTrans, m, k)
 //@ let rowB = ite(bTrans, n, k)
@@ -174,6 +174,33 @@ package gonum
 //@ requires m >= 0 && n >= 0 && k >= 0 && lda >= max(1, colA) && ldb >= max(1, colB) && ldc >= max(1, n)
 //@ requires ge(a, rowA, colA, lda) && ge(b, rowB, colB, ldb) && ge(c, m, n, ldc) && (m == 0 || n > 0)
 //@ writes c[i*ldc+j] for i in 0..m, j in 0..n
+
+// The parallel path (C09, gemm clause): every goroutine is started for a block
+// origin (i, j) on the blockSize grid, writes only cells of its own block of c
+// (go-footprint; a and b are never written), and the blocks of two different
+// origins share no cell (lemma gemm_blocks_disjoint). With fork-join semantics
+// of the WaitGroup (assumption A7) this gives data-race freedom on c, a, b and
+// a result independent of scheduling and GOMAXPROCS.
+
+//@ func dgemmParallel sgemmParallel props: C01(frame) C07(safety) C09(go,safety)
+//@ let rowA = ite(aTrans, k, m)
+//@ let colA = ite(aTrans, m, k)
+//@ let rowB = ite(bTrans, n, k)
+//@ let colB = ite(bTrans, k, n)
+//@ requires m >= 0 && n >= 0 && k >= 0 && lda >= max(1, colA) && ldb >= max(1, colB) && ldc >= max(1, n)
+//@ requires ge(a, rowA, colA, lda) && ge(b, rowB, colB, ldb) && ge(c, m, n, ldc) && (m == 0 || n > 0)
+//@ writes c[i*ldc+j] for i in 0..m, j in 0..n
+//@ go-requires i % blockSize == 0 && j % blockSize == 0 && 0 <= i && i < m && 0 <= j && j < n
+//@ go-footprint c[(i+r)*ldc+j+s] for r in 0..min(blockSize, m-i), s in 0..min(blockSize, n-j)
+
+//@ lemma gemm_blocks_disjoint props: C09
+//@ var i1 int, j1 int, i2 int, j2 int, r1 int, s1 int, r2 int, s2 int, m int, n int, ldc int
+//@ hyp 0 <= i1 && i1 < m && 0 <= j1 && j1 < n && i1 % blockSize == 0 && j1 % blockSize == 0
+//@ hyp 0 <= i2 && i2 < m && 0 <= j2 && j2 < n && i2 % blockSize == 0 && j2 % blockSize == 0
+//@ hyp (i1 != i2 || j1 != j2) && ldc >= n && n >= 1
+//@ hyp 0 <= r1 && r1 < min(blockSize, m-i1) && 0 <= s1 && s1 < min(blockSize, n-j1)
+//@ hyp 0 <= r2 && r2 < min(blockSize, m-i2) && 0 <= s2 && s2 < min(blockSize, n-j2)
+//@ goal (i1+r1)*ldc+j1+s1 != (i2+r2)*ldc+j2+s2
 
 //@ func dgemmSerialNotNot sgemmSerialNotNot props: C01(frame) C07(safety)
 //@ requires m >= 0 && n >= 0 && k >= 0 && lda >= max(1, k) && ldb >= max(1, n) && ldc >= max(1, n)
